@@ -23,7 +23,7 @@ HARNESSES = {
         "extra_files": {"multiendpoint/zz_verif_dump.go": "harness/multiendpoint/zz_verif_dump.go"},
         "corpus_glob": "*.ops", "corpus_dirs": ["C15", "C16"],
         "episode_start": r"^gme (new|livemon)",
-        "tiers": {"quick": {"episodes": 120}, "thorough": {"episodes": 3000, "seeds": 4}},
+        "tiers": {"quick": {"episodes": 400}, "thorough": {"episodes": 3000, "seeds": 4}},
     },
     "st": {
         "module": "grpcgcp", "pkg": ".", "test": "TestVerifStream",
